@@ -970,3 +970,102 @@ def singleton_of(func, expr, want):
             len(expr.elts) == 1:
         return N.txt(expr.elts[0]) == want
     return False
+
+
+def list_contributions(func, name):
+    """How the local list ``name`` of func is built.  Returns a list of
+    dicts {elt, var, domains, conditional, node}: ``elt`` the element
+    expression (None = every item of the single domain), ``domains`` the
+    iterables it ranges over (outer to inner; [] = one element),
+    ``conditional`` whether a filter / branch / jump can skip it; a dict
+    {'other': node} marks any other change of the list."""
+    out = []
+    root = func.node
+    parents = {}
+    for node in ast.walk(root):
+        for child in ast.iter_child_nodes(node):
+            parents[child] = node
+
+    def context(stmt):
+        domains, conditional = [], False
+        cur = stmt
+        while cur in parents and parents[cur] is not root:
+            par = parents[cur]
+            if isinstance(par, ast.For):
+                if cur in par.body:
+                    domains.insert(0, (par.target, par.iter))
+                    # a jump earlier in the body may skip the statement
+                    for sib in par.body:
+                        if sib is cur:
+                            break
+                        if any(isinstance(s, (ast.Continue, ast.Break,
+                                              ast.Return, ast.Raise))
+                               for s in ast.walk(sib)):
+                            conditional = True
+                else:
+                    conditional = True
+            elif isinstance(par, (ast.If, ast.While, ast.Try,
+                                  ast.ExceptHandler)):
+                if not (isinstance(par, ast.If) and
+                        isinstance(par.test, ast.Constant) and
+                        par.test.value is True):
+                    conditional = True
+            cur = par
+        return domains, conditional
+
+    def from_value(value, node, domains, conditional):
+        if isinstance(value, (ast.List, ast.Tuple)):
+            for elt in value.elts:
+                out.append({'elt': elt, 'var': None, 'domains': domains,
+                            'conditional': conditional, 'node': node})
+        elif isinstance(value, ast.ListComp):
+            doms = list(domains)
+            cond = conditional
+            for gen in value.generators:
+                doms.append((gen.target, gen.iter))
+                cond = cond or bool(gen.ifs)
+            out.append({'elt': value.elt, 'var': value.generators[-1].target,
+                        'domains': doms, 'conditional': cond, 'node': node})
+        elif isinstance(value, ast.Call) and callee_text(value) in (
+                'list', 'sorted') and len(value.args) == 1:
+            out.append({'elt': None, 'var': None,
+                        'domains': domains + [(None, value.args[0])],
+                        'conditional': conditional, 'node': node,
+                        'sorted': callee_text(value) == 'sorted'})
+        elif isinstance(value, ast.Call) and callee_text(value) in (
+                'list',) and not value.args:
+            pass
+        else:
+            out.append({'other': node})
+
+    for sub in walk_no_nested(root):
+        if isinstance(sub, ast.Assign) and any(
+                N.txt(t) == name for t in sub.targets):
+            domains, conditional = context(sub)
+            from_value(sub.value, sub, domains, conditional)
+        elif isinstance(sub, ast.AugAssign) and N.txt(sub.target) == name:
+            domains, conditional = context(sub)
+            if isinstance(sub.op, ast.Add):
+                from_value(sub.value, sub, domains, conditional)
+            else:
+                out.append({'other': sub})
+        elif isinstance(sub, ast.Expr) and isinstance(sub.value, ast.Call) \
+                and isinstance(sub.value.func, ast.Attribute) and \
+                N.txt(sub.value.func.value) == name:
+            call = sub.value
+            domains, conditional = context(sub)
+            if call.func.attr == 'append' and len(call.args) == 1:
+                out.append({'elt': call.args[0],
+                            'var': domains[-1][0] if domains else None,
+                            'domains': domains, 'conditional': conditional,
+                            'node': sub})
+            elif call.func.attr == 'extend' and len(call.args) == 1:
+                out.append({'elt': None, 'var': None,
+                            'domains': domains + [(None, call.args[0])],
+                            'conditional': conditional, 'node': sub})
+            else:
+                out.append({'other': sub})
+        elif isinstance(sub, ast.Delete) and any(
+                name in N.txt(t) for t in sub.targets):
+            out.append({'other': sub})
+    return out
